@@ -71,7 +71,7 @@ def run_one(cfg, prefix, expect=None):
     state_fail = cfg.get("state_fail", False)   # the follow-up GetDurableExecutionState call fails
 
     ex = core.Exec(prefix=prefix, policy=cfg.get("policy", "rtb"), horizon=cfg.get("horizon", 40.0),
-                   timer_choices=cfg.get("timer", True), expect=expect, max_steps=60000, stall_menu=cfg.get("stall"),
+                   timer_choices=cfg.get("timer", True), expect=expect, max_steps=60000, stall_menu=cfg.get("stall"), stall_ops=cfg.get("stall_ops"),
                    line_files=_line_files() if cfg.get("line") else None)
     calls = []   # API calls: dict(tick, token, ids, sizes, failed)
     state_calls = []
